@@ -1,3 +1,5 @@
+import Oidc.Shapes
+import Oidc.Facts
 import Oidc.Proofs.World
 import Oidc.Proofs.WorldHist3
 import Oidc.Proofs.Handler2
@@ -79,5 +81,11 @@ theorem postLogout_resolution (c : Cfg) (r : Req) :
 /-- a cleared view is not authenticated and holds no tokens -/
 theorem cleared_is_anonymous (c : Cfg) (e : Env) (v : View) : classify c e (clearView v) = (false, false, false) :=
   Oidc.World.classify_clear c e v
+
+
+/-! obligations against the regenerated shapes: the functions these theorems rest on still have the steps, guards, status
+    codes and literals the model was written against (`Oidc/Shapes.lean`) -/
+theorem shape_ServeHTTP_ok : Oidc.Shapes.Shape_ServeHTTP := by unfold Oidc.Shapes.Shape_ServeHTTP; rfl
+theorem shape_handleLogout_ok : Oidc.Shapes.Shape_handleLogout := by unfold Oidc.Shapes.Shape_handleLogout; rfl
 
 end Oidc.Props.C11
